@@ -48,9 +48,12 @@ def proj_val(v, scale):
 F64_EPS = 2.0 ** -34      # float64 family: value = 1/4 + k * 2^-34 (exact in float64; neighbours collapse in float32)
 
 
-def to_tensor(maps, S, C, H, W, scale, f64=False, half=""):
+def to_tensor(maps, S, C, H, W, scale, f64=False, half="", p64=False):
     import torch
 
+    if p64:       # the ordinary values in float64 (maps that went through numpy, or a double-precision model): everything the
+        t = torch.tensor(maps, dtype=torch.float64).reshape(S, C, H, W)       # float32 cases require, refinement included
+        return t / scale if scale != 1 else t
     if half:      # small integers, exact in bfloat16 / float16 (mixed-precision inference hands such maps to the peak finders)
         return torch.tensor(maps, dtype=torch.float32).reshape(S, C, H, W).to(torch.bfloat16 if half == "bf16" else torch.float16)
     if f64:
@@ -102,7 +105,7 @@ def observe_local(case):
     rec = dict(case, rough=[], none=[], ref=[], raised="")
     ps = rec.pop("ps")
     try:
-        cms = to_tensor(case["maps"], S, C, H, W, scale, f64, case.get("half", ""))
+        cms = to_tensor(case["maps"], S, C, H, W, scale, f64, case.get("half", ""), bool(case.get("p64")))
         rec["rough"] = local_rows(pf.find_local_peaks_rough(cms.clone(), threshold=thr), scale, f64)
         rec["none"] = local_rows(pf.find_local_peaks(cms.clone(), threshold=thr), scale, f64)       # refinement left at its default (None)
         for P in ps:
@@ -123,7 +126,7 @@ def observe_global(case):
     rec = dict(case, rough=[], none=[], ref=[], raised="")
     ps = rec.pop("ps")
     try:
-        cms = to_tensor(case["maps"], S, C, H, W, scale, f64, case.get("half", ""))
+        cms = to_tensor(case["maps"], S, C, H, W, scale, f64, case.get("half", ""), bool(case.get("p64")))
         rec["rough"] = global_rows(pf.find_global_peaks_rough(cms.clone(), threshold=thr), scale, f64)
         rec["none"] = global_rows(pf.find_global_peaks(cms.clone(), threshold=thr), scale, f64)     # refinement left at its default (None)
         for P in ps:
@@ -298,6 +301,9 @@ def build_cases(tier, rng, ps=(3, 5)):
     src = [c for c in cases if c["scale"] == 1 and c["h"] * c["w"] <= 9]
     for c in rng.sample(src, min(len(src), 300 if tier == "quick" else 3000)):
         cases.append(dict(c, f64=True, ps=[], maps=[list(m) for m in c["maps"]]))
+    # the ordinary cases once more as float64 tensors, refinement included
+    for c in rng.sample(src, min(len(src), 200 if tier == "quick" else 2000)):
+        cases.append(dict(c, p64=True, maps=[list(m) for m in c["maps"]]))
     # half-precision maps wider / taller than 256 cells: a cell index must not pass through the maps' dtype (bfloat16 has 8
     # bits of mantissa: odd integers above 256 are not representable).  Rough detection only.
     for k in range(24 if tier == "quick" else 200):
